@@ -1,11 +1,11 @@
-from vlib.core import Query, Plan
+from vlib.core import Plan
 from harness.inflate_common import plans as P
 
 
 def plan(tier, ctx):
     qs = []
     quick = tier == "quick"
-    # (a) stored blocks, valid streams only
+    # (a) stored blocks through the real isal_inflate_stateless, valid streams only
     ns = [5, 6, 8, 10, 12] if quick else list(range(0, 13))
     aos = [0, 1, 3, 8] if quick else list(range(0, 9))
     for n in ns:
@@ -13,10 +13,11 @@ def plan(tier, ctx):
             core = (n, ao) in ((10, 3), (6, 8))
             qs.append(P.stored_query("C02", n, ao, True, core=core, witness=core))
     # (c) canonical code assignment / over-subscription, dynamic-header prefix
-    for nsym in ([2, 5, 19] if quick else list(range(1, 20))):
-        qs.append(P.setcodes_query(nsym, core=(nsym == 5), witness=(nsym == 5)))
+    #     (measured: nsym=5 110 s, nsym=19 > 150 s; cost is the ordered next_code[len]++ chain)
+    for nsym in ([2, 3, 4] if quick else list(range(1, 9)) + [12, 19]):
+        qs.append(P.setcodes_query(nsym, core=(nsym == 3), witness=(nsym == 3), timeout=(None if quick else 2400)))
     qs.append(P.dynprefix_query())
-    # (b) fixed-Huffman block decoder unit (measured: n=1 ~115 s, n=2 ~265 s per cbmc run)
+    # (b) fixed-Huffman block decoder unit (measured: n=1 ~115 s, n=2 ~265 s, n=3 ~310 s per cbmc run)
     if quick:
         fixed = [(1, 0), (1, 3), (2, 3)]
     else:
@@ -25,6 +26,6 @@ def plan(tier, ctx):
         qs.append(P.fixed_query("C02", n, ao, True, core=False, witness=(not quick and (n, ao) == (2, 3)),
                                 timeout=(600 if quick else 2400), mem_gb=(None if quick else 24)))
     return Plan("C02", "model_checking", qs,
-                functions_encoded=["isal_inflate_stateless (driver loop, crc_flag=ISAL_DEFLATE)", "read_header",
-                                   "decode_literal_block", "inflate_in_load", "inflate_in_read_bits"],
-                bounds={}, stubs=[], assumptions=[], outside=[])
+                functions_encoded=P.FUNCS, bounds=P.bounds(True), stubs=P.STUBS,
+                assumptions=P.ASSUMPTIONS + ["flavour: the reference decoder accepts the input (well-formed stream / block)"],
+                outside=P.OUTSIDE, trusted_base=["cbmc 6.11 C front end + SAT back end", "spec/rfc1951.h (self-tested against zlib)"])
